@@ -657,6 +657,52 @@ theorem rosLoop_outOfFuel (fuel : Nat) (r : RState α) (hr : r.status ≠ .outOf
 
 end Step
 
+/-! ### C06: more loop-level facts -/
+
+section More
+variable {α : Type} [OfNat α 0] [OfNat α 1] [Add α] [Sub α] [Mul α] [Div α]
+variable (o : Ops α) (cs : Consts α) (s : SolverCfg α) (p : RosParams α) (kc : Mat α)
+    (atol : Array α) (rtol : α) (timeStep hm : α)
+
+/-- the trace of one iteration extends the old one -/
+theorem rosStep_trace_sub (r : RState α) (a : Attempt α) (h : a ∈ r.trace) :
+    a ∈ (rosStep o cs s p kc atol rtol timeStep hm r).trace := by
+  rw [rosStep_trace]; split
+  · exact List.mem_cons_of_mem _ h
+  · exact h
+
+/-- as long as no attempt was accepted (and the run did not end at a nan/inf exit) `Y` is the initial one -/
+def NoAccInv (Y0 : Mat α) (r : RState α) : Prop :=
+  r.status ≠ .nanDetected → r.status ≠ .infDetected → (∀ a ∈ r.trace, a.accepted = false) → r.Y = Y0
+
+theorem NoAccInv_step (Y0 : Mat α) (r : RState α) (hr : r.status = .running) (h : NoAccInv Y0 r) :
+    NoAccInv Y0 (rosStep o cs s p kc atol rtol timeStep hm r) := by
+  intro h1 h2 h3
+  have h0 : r.Y = Y0 := h (by rw [hr]; simp) (by rw [hr]; simp)
+    (fun a ha => h3 a (rosStep_trace_sub o cs s p kc atol rtol timeStep hm r a ha))
+  rcases rosStep_Y o cs s p kc atol rtol timeStep hm r with hY | hn | hi | ⟨att, ht, ha⟩
+  · rw [hY, h0]
+  · exact absurd hn h1
+  · exact absurd hi h2
+  · have := h3 att (by rw [ht]; exact List.mem_cons_self)
+    rw [ha] at this; cases this
+
+theorem NoAccInv_loop (Y0 : Mat α) (fuel : Nat) (r : RState α) (h : NoAccInv Y0 r) :
+    NoAccInv Y0 (rosLoop o cs s p kc atol rtol timeStep hm fuel r) :=
+  rosLoop_inv o cs s p kc atol rtol timeStep hm (NoAccInv Y0)
+    (fun r hr h => NoAccInv_step o cs s p kc atol rtol timeStep hm Y0 r hr h)
+    (fun r hr h => fun _ _ h3 => h (by rw [hr]; simp) (by rw [hr]; simp) h3) fuel r h
+
+/-- a time step below round-off: the very first loop test fails, nothing is attempted -/
+theorem rosLoop_no_progress (fuel : Nat) (r : RState α) (hr : r.status = .running) (hi : r.inStep = false)
+    (ht : o.le (r.ctl.t - timeStep + p.roundOff) 0 = false) :
+    rosLoop o cs s p kc atol rtol timeStep hm (fuel + 1) r = { r with status := .converged } := by
+  have hp : rosPrologue o cs s p kc timeStep r = { r with status := .converged } := by
+    unfold rosPrologue; simp [hi, ht]
+  rw [rosLoop_succ, if_pos hr, rosStep_no_attempt, hp, rosLoop_not_running] <;> simp [hp]
+
+end More
+
 /-! ### C05: the diagonal shift -/
 
 section Ext
